@@ -26,6 +26,12 @@ theorem retiring_eq (st : St) (s : Nat) : retiring st s = cnt (uRet s) st.ths :=
   intro pc
   cases pc <;> simp [uRet]
 
+theorem retiring2_eq (st : St) (s : Nat) : retiring2 st s = cnt (uRet2 s) st.ths := by
+  unfold retiring2
+  rw [cnt_eq_countP (uRet2 s) (fun pc => pc == .closeRetire2 s)]
+  intro pc
+  cases pc <;> simp [uRet2]
+
 /-- once the count is zero no step changes it, and no `Open` on it returns true -/
 theorem Step.zero_final {cfg : Cfg} {st st' : St} {i : Nat} {a : Act} {ev : Ev}
     (hO : cfg.fixedOpen = true) (h : Inv cfg st) (hs : Step cfg st i a st' ev) (s : Nat)
@@ -68,7 +74,7 @@ theorem Step.zero_final {cfg : Cfg} {st st' : St} {i : Nat} {a : Act} {ev : Ev}
     refine ⟨?_, by simp⟩
     rw [getS_setT, getS_setS _ _ _ _ h1' h2']
     simpa [hne] using hz
-  | retire b s0 hi =>
+  | retire2 b s0 hi =>
     obtain ⟨h1', h2'⟩ := h.pcs i _ hi
     refine ⟨?_, by simp⟩
     show (snapAt (setAt st.snaps s0 _) s).refs = 0
